@@ -19,7 +19,7 @@ SAN_EXIT = 99
 ENV_SAN = {
     'ASAN_OPTIONS': 'exitcode=99:abort_on_error=0:detect_leaks=1:allocator_may_return_null=1:detect_stack_use_after_return=1:handle_abort=1',
     'UBSAN_OPTIONS': 'exitcode=99:print_stacktrace=1:halt_on_error=1',
-    'TSAN_OPTIONS': 'exitcode=99:halt_on_error=1:second_deadlock_stack=1',
+    'TSAN_OPTIONS': 'exitcode=99:halt_on_error=1:second_deadlock_stack=1:die_after_fork=0',
     'LSAN_OPTIONS': 'exitcode=99:suppressions=%s/engine/lsan.supp:print_suppressions=0' % VERIF,
 }
 
